@@ -80,6 +80,7 @@ type c14Field struct {
 	BadText string `json:"bad,omitempty"`  // JSON text used for kind b
 	Null    bool   `json:"null,omitempty"` // empty array rendered as null
 	AWS     bool   `json:"aws,omitempty"`  // principal wrapped in {"AWS": …}
+	Raw     string `json:"raw,omitempty"`  // JSON text that overrides the rendering (e.g. `{}` for an empty principal)
 }
 
 func (f c14Field) enc() string {
@@ -97,6 +98,9 @@ func jstr(s string) string { b, _ := json.Marshal(s); return string(b) }
 
 func (f c14Field) json() string {
 	var v string
+	if f.Raw != "" {
+		return f.Raw
+	}
 	switch f.Kind {
 	case "b":
 		return f.BadText
@@ -361,7 +365,7 @@ func c14Glob(a lib.Args, res *lib.Result) error {
 	if a.Thorough() {
 		m = 3000000
 	}
-	r := lib.NewRand(a.Seed + 14)
+	r := lib.NewRandStream(a.Seed, 14)
 	type pr struct{ p, s string }
 	pairs := make([]pr, 0, m+len(corpus))
 	for _, c := range corpus {
@@ -468,7 +472,7 @@ func c14Matchers(a lib.Args, res *lib.Result) error {
 	if a.Thorough() {
 		n = 500000
 	}
-	r := lib.NewRand(a.Seed + 114)
+	r := lib.NewRandStream(a.Seed, 114)
 	type cs struct {
 		kind  string
 		set   []string
@@ -668,7 +672,7 @@ func c14Eval(a lib.Args, res *lib.Result) error {
 	if a.Thorough() {
 		n = 300000
 	}
-	r := lib.NewRand(a.Seed + 214)
+	r := lib.NewRandStream(a.Seed, 214)
 	type cs struct {
 		doc  string
 		pol  []c14Stmt
